@@ -353,6 +353,18 @@ pub fn judge(cfg: &Cfg, log: &[Rec]) -> Report {
                 if was_ok && s != 0 {
                     rep.violate("C16:not-connected-after-success", format!("r{id}: call succeeded but the published state is {}", ["Connected", "Disconnected", "Reconnecting"][s as usize]));
                 }
+                // the request ended on a connection failure the layer handled (and nobody else can
+                // have reconnected in the meantime): the published state cannot still say Connected
+                let last_reconnectable = matches!(&last.2, Some((_, How::Err(c))) if !cfg.predicate || *c == 1);
+                // (only when the layer gave up: with retry_on_reconnect(false) the layer reconnects
+                // and then declines to re-issue the request, so Connected is right there)
+                let gave_up = matches!(out, Outcome::Layer { kind, .. } if kind == "MaxAttemptsExceeded");
+                if !was_ok && last_reconnectable && gave_up && cfg.drivers == 1 && s == 0 {
+                    rep.violate("C16:connected-after-connection-failure", format!("r{id}: ended with {} after a connection failure, but the published state is still Connected", out.short()));
+                }
+            }
+            if !cfg.retry_on_reconnect && !cfg.defaults_layer && atts.len() > 1 {
+                rep.violate("C16:reissued-although-retry-on-reconnect-is-off", format!("r{id}: {} inner calls although retry_on_reconnect(false) was configured", atts.len()));
             }
         }
         let _ = script;
